@@ -98,6 +98,10 @@ class Sym:
                         continue
                 if e[0] == "call" and e[1] in ("Try::ok", ) and pr[1] == 0:
                     continue
+                tag = getattr(self, "_tag_field", None)
+                if tag is not None and e[0] == "param" and e[1] == tag[0] and pr[2] == tag[1] and getattr(self, "_pos", None) is not None:
+                    e = ("fieldat", pr[2], self._pos)      # position-tagged read (field_exit_value_seq)
+                    continue
                 e = ("field", e, pr[2])
             elif k == "[]":
                 e = ("index", e, self.local(pr[1], depth, subst))
@@ -578,6 +582,118 @@ class Sym:
                 e = ("select", ("bin", "Eq", cond, ("const", k2[1])), sub[k2], e)
             return e
         return build(paths, 0)
+
+    def field_exit_value_seq(self, field, self_local=1, cap=400):
+        """like field_exit_value, but reads of the field see the stores made earlier on the same path (x -= a; x += b).
+        Select-tree over the branch decisions of every acyclic path; leaves are expressions over the entry value."""
+        fn = self.fn
+        t = Sym(self.prog, fn, ifconv=self.ifconv)
+        t._tag_field = (self_local, field)
+        entry = ("field", ("param", self_local, fn.local_name(self_local) or "self"), field)
+
+        def is_field_place(p):
+            return (not isinstance(p, int)) and p[0] == self_local and len(p[1]) == 2 and p[1][0][0] == "*" and p[1][1][0] == "." and p[1][1][2] == field
+        for b in fn.blocks:
+            if b.cleanup:
+                continue
+            for st in b.stmts:
+                if st[0] == "=" and st[2][0] == "ref" and is_field_place(st[2][2]) and st[2][1] == "mut":
+                    return None
+        paths = []
+
+        def dfs(b, seen, blocks, decisions):
+            if len(paths) > cap:
+                return False
+            tm = fn.blocks[b].term
+            if tm[0] == "return":
+                paths.append((tuple(blocks), tuple(decisions)))
+                return True
+            for sx in fn.succs(b):
+                if sx in seen or fn.blocks[sx].cleanup:
+                    continue
+                dec = decisions
+                if tm[0] == "switch":
+                    vals = [v for v, tgt in tm[2] if tgt == sx]
+                    key = ("other",) if (sx == tm[3] and not vals) else (("eq", vals[0]) if len(vals) == 1 else ("in", tuple(vals)))
+                    dec = decisions + [(b, key)]
+                if not dfs(sx, seen | {sx}, blocks + [sx], dec):
+                    return False
+            return True
+        if not dfs(0, {0}, [0], []) or not paths:
+            return None
+
+        def subst_at(e, order, hist):
+            """replace position-tagged reads by the value the field has at that position on this path"""
+            if not isinstance(e, tuple) or not e:
+                return e
+            if e[0] == "fieldat" and e[1] == field:
+                pb, pi = e[2]
+                if pb not in order:
+                    return ("unknown",)
+                key = (order[pb], 10 ** 9 if pi == "t" else pi)
+                val = entry
+                for hk, hv in hist:
+                    if hk < key:
+                        val = hv
+                return val
+            if not isinstance(e[0], str):
+                return tuple(subst_at(x, order, hist) for x in e)
+            return tuple(subst_at(x, order, hist) if isinstance(x, tuple) else x for x in e)
+
+        finals = []
+        for blocks, decisions in paths:
+            order = {b: k for k, b in enumerate(blocks)}
+            hist = []
+            for b in blocks:
+                for i, st in enumerate(fn.blocks[b].stmts):
+                    if st[0] == "=" and is_field_place(st[1]):
+                        e = t.at(b, i).rvalue(st[2])
+                        hist.append(((order[b], i), subst_at(e, order, hist)))
+                tm = fn.blocks[b].term
+                if tm[0] == "call" and is_field_place(tm[1]["dest"]):
+                    return None
+            val = hist[-1][1] if hist else entry
+            if contains(val, lambda x: x[0] == "unknown"):
+                return None
+            finals.append((blocks, decisions, val, order, hist))
+
+        def build(ps, k):
+            if len(set(repr(p[2]) for p in ps)) == 1:
+                return ps[0][2]
+            if any(len(p[1]) <= k for p in ps):
+                return None
+            blk = ps[0][1][k][0]
+            if any(p[1][k][0] != blk for p in ps):
+                return None
+            tm = fn.blocks[blk].term
+            groups = {}
+            for p in ps:
+                groups.setdefault(p[1][k][1], []).append(p)
+            cond = subst_at(t.at(blk, "t").operand(tm[1]), ps[0][3], ps[0][4])
+            sub = {}
+            for key, g in groups.items():
+                v = build(g, k + 1)
+                if v is None:
+                    return None
+                sub[key] = v
+            if len(set(repr(v) for v in sub.values())) == 1:
+                return next(iter(sub.values()))
+            if tm[4] == "bool" and len(tm[2]) == 1 and tm[2][0][0] == 0:
+                vt, vf = sub.get(("other",)), sub.get(("eq", 0))
+                if vt is None or vf is None:
+                    return None
+                return ("select", cond, vt, vf)
+            e = sub.get(("other",))
+            keys = [k2 for k2 in sub if k2[0] == "eq"]
+            if e is None:
+                if not keys:
+                    return None
+                e = sub[keys[-1]]
+                keys = keys[:-1]
+            for k2 in reversed(keys):
+                e = ("select", ("bin", "Eq", cond, ("const", k2[1])), sub[k2], e)
+            return e
+        return build(finals, 0)
 
     def straightline_effects(self, self_local=1):
         """for a function with a single normal path: the final value of every field of `*self` it stores, in terms of the
